@@ -297,6 +297,15 @@ func (clnt *Clnt) send() {
 			return
 
 		case req := <-clnt.reqout:
+			/* req stays valid while the lock is held and no error is set: when the
+			   connection fails, recv sets clnt.err under the lock before it tells
+			   the callers, and they recycle their requests (req.Tc becomes nil) */
+			clnt.Lock()
+			if clnt.err != nil {
+				clnt.Unlock()
+				continue
+			}
+
 			if clnt.Debuglevel > 0 {
 				clnt.logFcall(req.Tc)
 				if clnt.Debuglevel&DbgPrintPackets != 0 {
@@ -315,6 +324,7 @@ func (clnt *Clnt) send() {
 			// while conn.Write is still reading from it.
 			pkt := make([]byte, len(req.Tc.Pkt))
 			copy(pkt, req.Tc.Pkt)
+			clnt.Unlock()
 			for buf := pkt; len(buf) > 0; {
 				n, err := clnt.conn.Write(buf)
 				if err != nil {
